@@ -259,7 +259,7 @@ impl Harness for ConnDataHarness {
         vec![("sc", 4, true), ("weak", 5, true)]
     }
     fn quick_runs(&self) -> u64 {
-        if self.prop == "C08" { 20_000 } else { 40_000 }
+        40_000
     }
     fn components(&self) -> Value {
         json!({"real": ["iceoryx2-cal zero_copy_connection::common (Sender/Receiver, used_chunk_list)", "spsc index queues", "dynamic_storage::process_local"], "stub": ["atomic ordering semantics", "thread scheduler"]})
@@ -274,7 +274,24 @@ impl Harness for ConnDataHarness {
         }
         let mut rc = Vec::new();
         let mut held = 0;
-        for _ in 0..r.range(2, 9) {
+        // half of the plans: the sender only sends, the receiver strictly alternates receive and release — the
+        // shape in which the completion queue is filled to the brim between two reclaims of the sender
+        let alternating = r.chance(0.5);
+        if alternating {
+            s.clear();
+            for _ in 0..r.range(3, 7) {
+                s.push(Op::new("send", &[]));
+            }
+            for _ in 0..borrow {
+                rc.push(Op::new("recv", &[]));
+            }
+            for _ in 0..r.range(2, 5) {
+                rc.push(Op::new("rel", &[0]));
+                rc.push(Op::new("recv", &[]));
+            }
+            rc.push(Op::new("rel", &[0]));
+        }
+        for _ in 0..if alternating { 0 } else { r.range(2, 9) } {
             if held > 0 && r.chance(0.45) {
                 rc.push(Op::new("rel", &[r.range(0, 2)]));
                 held -= 1;
